@@ -128,15 +128,34 @@ pub fn variant() -> String {
 
 fn descr(s: &St, span: (usize, usize, usize)) -> String {
     format!(
-        "{}:{}:{}:{}:{}:{}:{}",
+        "{}:{}:{}:{}:{}:{}:{}:{}",
         s.id,
         s.kind,
         s.starts_paren as u8,
         s.semi as u8,
         if s.lines.is_empty() { "-".to_string() } else { s.lines.join("+") },
         span.0,
-        span.1
+        span.1,
+        blank_observable(s) as u8
     )
+}
+
+/// blank lines directly above the statement's own first line, and that line can be found again
+fn blank_observable(s: &St) -> bool {
+    s.blank > 0 && s.lead.is_empty() && s.fmt_first != "repeat" && s.fmt_first != "do"
+}
+
+/// third observation: were the blank lines above the statement removed (`s`) or kept (`k`)?
+fn observe_blank(out: &str, s: &St, v: char) -> char {
+    if !blank_observable(s) {
+        return '-';
+    }
+    let key = if v == 'V' { s.raw.clone() } else { s.fmt_first.clone() };
+    match blank_before(out, &key) {
+        Some(0) => 's',
+        Some(_) => 'k',
+        None => '?',
+    }
 }
 
 /// observed outcome of one statement in the output: V (verbatim) / F (formatted) / ? and semicolon
@@ -265,7 +284,7 @@ pub fn run(tier: &str, seed: u64) -> Sink {
             let mut cursor = 0usize;
             for (k, s) in stmts.iter().enumerate() {
                 let (v, semi) = observe(&out, s);
-                obs.push(format!("{}{}", v, semi as u8));
+                obs.push(format!("{}{}{}", v, semi as u8, observe_blank(&out, s, v)));
                 if exp[k] {
                     // ring 3: slice incl. semicolon unchanged, in order
                     let slice = &prog.text[prog.spans[k].0..prog.spans[k].2];
@@ -342,7 +361,7 @@ pub fn run(tier: &str, seed: u64) -> Sink {
                 let mut obs = Vec::new();
                 for (k, s) in stmts.iter().enumerate() {
                     let (v, semi) = observe(&out, s);
-                    obs.push(format!("{}{}", v, semi as u8));
+                    obs.push(format!("{}{}{}", v, semi as u8, observe_blank(&out, s, v)));
                     if !inside(k) && affected(k) {
                         continue;
                     }
